@@ -50,6 +50,11 @@ def gen(ctx, n):
         tail = [3.0, 0.001, r.randint(5, 20)]
         cases.append({'acc': 'prv', 'h1': [main, tail], 'h2': [tail, main], 'd1': 1e-5, 'd2': 1e-5, 'mm': 'perm', 'kind': 'pair'})
         cases.append({'acc': 'prv', 'h1': [main], 'h2': [main, tail], 'd1': 1e-5, 'd2': 1e-5, 'mm': 'steps', 'kind': 'pair'})
+    # prv, one long run recorded as several runs of the same (sigma, q) with a large total epsilon (the truncation domain must cover the WHOLE composition)
+    for _ in range(max(2, n // 80)):
+        sg, q, k, m = r.choice([0.8, 0.9]), 0.05, r.choice([4, 5, 6]), r.choice([300, 500])
+        cases.append({'acc': 'prv', 'h1': [[sg, q, k * m]], 'h2': [[sg, q, m]] * k, 'd1': 1e-5, 'd2': 1e-5, 'mm': 'split', 'kind': 'pair'})
+        cases.append({'acc': 'prv', 'h1': [[sg, q, (k - 1) * m]], 'h2': [[sg, q, m]] * k, 'd1': 1e-5, 'd2': 1e-5, 'mm': 'steps', 'kind': 'pair'})
     # a re-used accountant object: queried with one history, then given another of at least the same length
     for _ in range(max(4, n // 20)):
         acc = r.choice(['rdp', 'rdp', 'prv'])
